@@ -150,9 +150,15 @@ example : ([0, 1, 2, 3].map fun k =>
     F-13e; before it `6a 03 01 02 03` decoded to 66051, `6a 00` to 0 and a nine-byte value lost its
     first byte — the management protocol then acted on a number nobody had written). -/
 theorem natural_of_other_width_rejected (o : Bool) (l : Nat) (ic : Bool) (rest : Bytes)
-    (hl : natLenOk l = false) :
+    (hl : l ≠ 1 ∧ l ≠ 2 ∧ l ≠ 4 ∧ l ≠ 8) :
     readKind (.natural o) l ic rest = .err 0 ∧ readKind (.time o) l ic rest = .err 0 := by
-  constructor <;> simp [readKind, readNatLoop, hl, Res.bind]
+  have h : natLenOk l = false := by
+    simp [natLenOk, Ndn.Gen.C13.naturalWidthChecked, hl.1, hl.2.1, hl.2.2.1, hl.2.2.2]
+  constructor <;> simp [readKind, readNatLoop, h, Res.bind]
+
+/-- the regenerated fact behind it: the decoder template of the working tree enforces the widths (a tree whose
+    template accepts every length regenerates `false`, and this and the theorem above no longer check) -/
+theorem decoder_template_enforces_natural_widths : Ndn.Gen.C13.naturalWidthChecked = true := by decide
 
 /-- … and the four widths are exactly what the generated encoders write, for every value -/
 theorem encoders_write_accepted_widths (n : Nat) : natLenOk (encNat n).length = true :=
